@@ -88,6 +88,14 @@ def make_src(rng, tier, name=None):
         # every mask, every run: a very quiet recording (amplitudes 1e-9 .. 1e-7, powers near the eps guards)
         x = x / max(np.abs(x).max(), 1e-300) * 10.0 ** rng.uniform(-9, -7)
         kind = kind + '/quiet'
+    if name in ('ibm', 'wiener') and _S1.get(name, 0) % 3 == 1:
+        free = [a for a in range(nd) if a != src and a != sen]
+        if free:
+            # every run: time-frequency points where EVERY source (and sensor) is exactly silent (zero padding, gated segments)
+            idx = [slice(None)] * nd
+            idx[free[0]] = 0
+            x[tuple(idx)] = 0
+            kind = kind + '/pause'
     if kind.startswith('silent') and sen is None and nd >= 2:        # some points silent in every source
         idx = [slice(None)] * nd
         other = [a for a in range(nd) if a != src][0]
